@@ -265,6 +265,11 @@ def clone(v, memo):
         return o
     if isinstance(v, BoundMethod):
         return BoundMethod(clone(v.recv, memo), v.name)
+    if hasattr(v, 'clone_model'):
+        o = memo.get(id(v))
+        if o is None:
+            memo[id(v)] = o = v.clone_model()
+        return o
     return v
 
 
